@@ -591,6 +591,8 @@ def e1_equality_coverage(prog):
                     t = t[2]
                 elif t[0] == 'down':
                     t = t[1]           # payload of the field's enum value: part of the field
+                elif t[0] == 'elem':
+                    t = t[1]           # an element of an iteration over the field
                 elif t[0] == 'it' and t[1] in ADAPT + ('rev',) and t[1] != 'rev':
                     t = t[2]
                 elif t[0] == 'call' and t[2]:
@@ -666,6 +668,14 @@ def e1_equality_coverage(prog):
             cmps = [c for cs in (comparison(a_, v) for a_, v in conds if isinstance(v, bool)) if cs for c in cs]
             if verdict == pathsem.TRUE:
                 n_true += 1
+                # `a.len() == b.len() && a.iter().zip(b).all(==)`: the length comparison is part of an element-wise one
+                zipped = set()
+                for a_, v in conds:
+                    if isinstance(a_, tuple) and a_[0] in ('nonempty', 'next', 'consumed', 'exhausted') and isinstance(a_[1], tuple) and a_[1][0] == 'it' and a_[1][1] == 'zip':
+                        fa, fb = side_field(a_[1][2]), side_field(a_[1][3])
+                        if fa and fb and fa[1] == fb[1] and {fa[0], fb[0]} == {1, 2} and fa[2] is None and fb[2] is None:
+                            zipped.add(fa[1])
+                cmps = [(c[0], None, c[2]) if (c[1] == 'len' and c[0] in zipped) else c for c in cmps]
                 for fld in fields:
                     hits = [c for c in cmps if c[0] == fld and c[2]]
                     if not hits and same_empty_variant(conds, fld):
